@@ -99,8 +99,8 @@ ASSUMPTIONS = [
     "mesh cargo and python-level type punning of data (1 vs True vs 1.0, numpy scalars) are outside the workload",
     "subdomain_data objects are harness objects with ufl_id(); integrals carrying them are not eval(repr)-ed",
 ]
-BUDGET = {"quick": 50, "thorough": 330}
-NCASES = {"quick": 6400, "thorough": 160000}
+BUDGET = {"quick": 60, "thorough": 330}
+NCASES = {"quick": 4000, "thorough": 160000}
 WORKERS = {"quick": 16, "thorough": 16}
 EVAL_COUNTER = "pairs"
 FLOORS = {
@@ -108,20 +108,20 @@ FLOORS = {
         "pairs": 2000000,
         "near_miss_pairs": 200000,
         "near_miss_unequal_ok": 200000,
-        "identical_pairs": 40000,
-        "eq_true": 40000,
-        "triples": 500000,
-        "snapshots_rechecked": 50000,
+        "identical_pairs": 35000,
+        "eq_true": 35000,
+        "triples": 400000,
+        "snapshots_rechecked": 45000,
         "container_lookups": 8000,
-        "pickle_roundtrips": 9000,
-        "evalrepr_roundtrips": 5000,
+        "pickle_roundtrips": 8000,
+        "evalrepr_roundtrips": 4000,
         "xproc_objects": 60,
         "xproc_objects_other-hashseed": 30,
         "xproc_objects_same-hashseed": 30,
-        "mutants": 12000,
-        "regenerated_twins": 1500,
-        "cases": 3500,
-        "case_forms": 800,
+        "mutants": 9000,
+        "regenerated_twins": 1200,
+        "cases": 3000,
+        "case_forms": 700,
         "families": 29,
     },
     "thorough": {
@@ -354,6 +354,15 @@ def signature_of(o):
         return ("raises", type(ex).__name__)
 
 
+def viol(ctx, key, desc, detail=None):
+    """At most 3 reports per mechanism key and worker (the runner keeps only 200 per worker)."""
+    seen = ctx.__dict__.setdefault("_c13_seen", {})
+    seen[key] = seen.get(key, 0) + 1
+    ctx.count("violating_observations")
+    if seen[key] <= 3:
+        ctx.violation(key, desc, detail)
+
+
 def judge(ctx, A, B, eqm=None, i=None, j=None):
     """Judge the ordered pair (A, B) and its mirror. Returns (a==b) or None when == raised."""
     ctx.count("pairs", 2)
@@ -362,7 +371,7 @@ def judge(ctx, A, B, eqm=None, i=None, j=None):
         e_ba = do_eq(B.o, A.o)
     except Exception as ex:
         ctx.count("eq_raised")
-        ctx.violation(
+        viol(ctx, 
             f"C13/eq-raises/{pair_key(A, B)}",
             f"comparing {A.label()} with {B.label()} raises {type(ex).__name__}: {str(ex)[:120]}",
             {"a": A.rep[:400], "b": B.rep[:400]},
@@ -374,7 +383,7 @@ def judge(ctx, A, B, eqm=None, i=None, j=None):
         eqm[i][j] = e_ab
         eqm[j][i] = e_ba
     if e_ab != e_ba:
-        ctx.violation(
+        viol(ctx, 
             f"C13/not-symmetric/{pair_key(A, B)}",
             f"({A.label()} == {B.label()}) is {e_ab} but the mirrored comparison is {e_ba}",
             {"a": A.rep[:400], "b": B.rep[:400]},
@@ -382,31 +391,31 @@ def judge(ctx, A, B, eqm=None, i=None, j=None):
     if same:
         ctx.count("reflexive_checks")
         if not e_ab:
-            ctx.violation(f"C13/not-reflexive/{okey(A)}", f"{A.label()} == itself is False", {"a": A.rep[:400]})
+            viol(ctx, f"C13/not-reflexive/{okey(A)}", f"{A.label()} == itself is False", {"a": A.rep[:400]})
         return e_ab
     if e_ab or e_ba:
         ctx.count("eq_true")
         ha, hb = hash(A.o), hash(B.o)
         if not ceq:
-            ctx.violation(
+            viol(ctx, 
                 f"C13/eq-but-different-data/{pair_key(A, B)}",
                 f"{A.label()} == {B.label()} is True although the two objects carry different data",
                 {"a": A.rep[:600], "b": B.rep[:600]},
             )
         if ha != hb:
-            ctx.violation(
+            viol(ctx, 
                 f"C13/eq-but-different-hash/{pair_key(A, B)}",
                 f"{A.label()} == {B.label()} is True but the hashes differ",
                 {"a": A.rep[:600], "b": B.rep[:600]},
             )
         if repr(A.o) != repr(B.o):
-            ctx.violation(
+            viol(ctx, 
                 f"C13/eq-but-different-repr/{pair_key(A, B)}",
                 f"{A.label()} == {B.label()} is True but the reprs differ",
                 {"a": A.rep[:600], "b": B.rep[:600]},
             )
         if shapeinfo(A.o) != shapeinfo(B.o):
-            ctx.violation(
+            viol(ctx, 
                 f"C13/eq-but-different-shape/{pair_key(A, B)}",
                 f"{A.label()} == {B.label()} is True but shape/free indices are {shapeinfo(A.o)} vs {shapeinfo(B.o)}",
                 {"a": A.rep[:600], "b": B.rep[:600]},
@@ -414,7 +423,7 @@ def judge(ctx, A, B, eqm=None, i=None, j=None):
         if isinstance(A.o, Form) and isinstance(B.o, Form):
             ctx.count("signature_checks")
             if signature_of(A.o) != signature_of(B.o):
-                ctx.violation(
+                viol(ctx, 
                     f"C13/eq-but-different-signature/{pair_key(A, B)}",
                     "two forms compare equal but have different signatures",
                     {"a": A.rep[:600], "b": B.rep[:600]},
@@ -422,7 +431,7 @@ def judge(ctx, A, B, eqm=None, i=None, j=None):
     if ceq:
         ctx.count("identical_pairs")
         if not (e_ab and e_ba):
-            ctx.violation(
+            viol(ctx, 
                 f"C13/identical-data-but-unequal/{pair_key(A, B)}",
                 f"{A.label()} and {B.label()} carry identical data (same canonical form) but == is {e_ab}/{e_ba}",
                 {"a": A.rep[:600], "b": B.rep[:600]},
@@ -437,13 +446,13 @@ def recheck(ctx, parts, where):
         now = (repr(P.o), ckey(P.o), shapeinfo(P.o))
         if now != (P.rep, P.can, P.shp):
             what = "repr" if now[0] != P.rep else ("data" if now[1] != P.can else "shape")
-            ctx.violation(
+            viol(ctx, 
                 f"C13/comparison-changes-{what}/{where}/{clsname(P.o)}",
                 f"after a sequence of comparisons the {what} of {P.label()} changed",
                 {"before": P.rep[:600], "after": now[0][:600]},
             )
         if P.hsh is not None and hash(P.o) != P.hsh:
-            ctx.violation(
+            viol(ctx, 
                 f"C13/comparison-changes-hash/{where}/{clsname(P.o)}",
                 f"after a sequence of comparisons the hash of {P.label()} changed",
                 {"before": P.rep[:600]},
@@ -458,7 +467,7 @@ def transitivity(ctx, parts, eqm, where):
             for k in succ[j]:
                 ctx.count("triples")
                 if eqm[i][k] is False:
-                    ctx.violation(
+                    viol(ctx, 
                         f"C13/not-transitive/{where}",
                         f"{parts[i].label()} == {parts[j].label()} == {parts[k].label()} but first != third",
                         {"a": parts[i].rep[:300], "b": parts[j].rep[:300], "c": parts[k].rep[:300]},
@@ -516,7 +525,7 @@ def roundtrips(ctx, P, do_eval=True, protocols=(2, pickle.HIGHEST_PROTOCOL)):
             r = pickle.loads(pickle.dumps(o, proto))
         except Exception as ex:
             culprit = smallest_failing(o, _pickle_bad)
-            ctx.violation(
+            viol(ctx, 
                 f"C13/pickle-raises/{okey(P, culprit)}",
                 f"pickle round trip of {P.label()} raises {type(ex).__name__}: {str(ex)[:160]}",
                 {"obj": P.rep[:600], "smallest": repr(culprit)[:400]},
@@ -530,7 +539,7 @@ def roundtrips(ctx, P, do_eval=True, protocols=(2, pickle.HIGHEST_PROTOCOL)):
         if not ok_eq or not same_data or repr(r) != P.rep or hash(r) != hash(o):
             culprit = smallest_failing(o, _pickle_bad)
             kind = "unequal" if not ok_eq else ("different-data" if not same_data else "different-repr-or-hash")
-            ctx.violation(
+            viol(ctx, 
                 f"C13/pickle-roundtrip-{kind}/{okey(P, culprit)}",
                 f"pickle.loads(pickle.dumps(e)) of {P.label()} is not an equal, identical-data object",
                 {"obj": P.rep[:600], "back": repr(r)[:600], "smallest": repr(culprit)[:400]},
@@ -543,7 +552,7 @@ def roundtrips(ctx, P, do_eval=True, protocols=(2, pickle.HIGHEST_PROTOCOL)):
             r = eval(P.rep, ns())
         except Exception as ex:
             culprit = smallest_failing(o, _evalrepr_bad)
-            ctx.violation(
+            viol(ctx, 
                 f"C13/eval-repr-raises/{okey(P, culprit)}",
                 f"eval(repr(e)) of {P.label()} raises {type(ex).__name__}: {str(ex)[:160]}",
                 {"obj": P.rep[:600], "smallest": repr(culprit)[:400]},
@@ -557,7 +566,7 @@ def roundtrips(ctx, P, do_eval=True, protocols=(2, pickle.HIGHEST_PROTOCOL)):
         if not ok_eq or not same_data:
             culprit = smallest_failing(o, _evalrepr_bad)
             kind = "unequal" if not ok_eq else "different-data"
-            ctx.violation(
+            viol(ctx, 
                 f"C13/eval-repr-{kind}/{okey(P, culprit)}",
                 f"eval(repr(e)) of {P.label()} is not equal to e",
                 {"obj": P.rep[:600], "back": repr(r)[:600], "smallest": repr(culprit)[:400]},
@@ -1215,9 +1224,9 @@ def run_family(ctx, mk):
         for P in parts:
             ctx.count("container_lookups")
             if P.o not in s or P.o not in d:
-                ctx.violation(f"C13/container-lookup-fails/{clsname(P.o)}", f"{P.label()} is not found in a set/dict that contains it", {"a": P.rep[:400]})
+                viol(ctx, f"C13/container-lookup-fails/{clsname(P.o)}", f"{P.label()} is not found in a set/dict that contains it", {"a": P.rep[:400]})
     except Exception as ex:
-        ctx.violation(f"C13/eq-raises/container/{F.name}", f"set/dict of the family raises {type(ex).__name__}: {str(ex)[:160]}")
+        viol(ctx, f"C13/eq-raises/container/{F.name}", f"set/dict of the family raises {type(ex).__name__}: {str(ex)[:160]}")
     # round trips
     for P in parts:
         if P.twin == 0 and "wrap" not in P.data:
@@ -1259,7 +1268,7 @@ def xproc(ctx, tag, seed_a, seed_b, nobj):
         ctx.count("xproc_objects_" + tag)
         ctx.add_distinct(("xproc", tag, r["digest"]))
         if r.get("error"):
-            ctx.violation(
+            viol(ctx, 
                 f"C13/pickle-cross-process/raises/{tag}/{r['cls']}",
                 f"reading a pickle written by another interpreter ({tag}) raises {r['error'][:200]}",
                 {"repr": r["repr"][:400]},
@@ -1267,21 +1276,21 @@ def xproc(ctx, tag, seed_a, seed_b, nobj):
             continue
         how = "used as dict key before the dump" if r["hashed"] else "not used as dict key before the dump"
         if not r["same_data"] or not r["same_repr"]:
-            ctx.violation(
+            viol(ctx, 
                 f"C13/pickle-cross-process/different-data/{tag}/{r['cls']}",
                 "object read from a pickle written by another interpreter carries other data than the original",
                 {"repr": r["repr"][:400]},
             )
             continue
         if not (r["eq_lf"] and r["eq_fl"]):
-            ctx.violation(
+            viol(ctx, 
                 f"C13/pickle-cross-process/unequal-to-identical-object/{tag}",
                 f"unpickled in another interpreter ({tag}), the object is != an identical object built there "
                 f"(eq {r['eq_lf']}/{r['eq_fl']}, hash equal: {r['hash_equal']}, found in dict: {r['in_dict']}; {how})",
                 {"repr": r["repr"][:400], "cls": r["cls"]},
             )
         elif not r["hash_equal"] or not r["in_dict"]:
-            ctx.violation(
+            viol(ctx, 
                 f"C13/pickle-cross-process/equal-but-different-hash/{tag}",
                 f"unpickled in another interpreter ({tag}), the object is == an identical object built there but "
                 f"hash equal: {r['hash_equal']}, found in dict: {r['in_dict']} ({how})",
@@ -1588,7 +1597,7 @@ def case(ctx, i, rng):
             else:
                 a in set(objs[: rng.randrange(1, n + 1)])
     except Exception as ex:
-        ctx.violation(f"C13/eq-raises/sequence/{clsname(e)}", f"comparison sequence raises {type(ex).__name__}: {str(ex)[:160]}", {"root": root.rep[:400]})
+        viol(ctx, f"C13/eq-raises/sequence/{clsname(e)}", f"comparison sequence raises {type(ex).__name__}: {str(ex)[:160]}", {"root": root.rep[:400]})
     recheck(ctx, parts, "case")
     if i % 97 == 5:
         ctx.sample({"case": i, "kind": kind, "root": clsname(e), "participants": n, "repr_len": len(root.rep)}, limit=3)
